@@ -106,7 +106,23 @@ pub fn engine_hist(cases: Vec<Value>, out: &mut NdjsonOut) {
             let mut delta = log_delta(&before, &after);
             // checkpoint frames carry to_seq for the model's no-op classification
             delta["op"] = op.clone();
-            results.push(json!({"ok": r["ok"], "ret": r["ret"], "log": delta}));
+            // the thread's full sidecar against its frames in the log (ids in order): the sidecar never holds a frame the log lacks
+            let side_vs_log = if get_bool(&case, "watch_sidecar").unwrap_or(false) {
+                let t = get_u64(op, "t").unwrap_or(0) as usize;
+                let tid = env.thread_id(t);
+                let side: Vec<String> = env
+                    .cache_path(&tid, "full")
+                    .and_then(|p| std::fs::read(p).ok())
+                    .map(|b| String::from_utf8_lossy(&b).lines().filter_map(|l| serde_json::from_str::<Value>(l).ok()).filter_map(|v| v["id"].as_str().map(str::to_string)).collect())
+                    .unwrap_or_default();
+                let logids: Vec<String> = env.truth_frames(t).iter().map(|e| e.id.clone()).collect();
+                let extra: Vec<&String> = side.iter().filter(|i| !logids.contains(i)).collect();
+                json!({"sidecar_lines": side.len(), "log_frames": logids.len(), "sidecar_only": extra.len(),
+                       "is_prefix": side.len() <= logids.len() && side.iter().zip(logids.iter()).all(|(a, b)| a == b)})
+            } else {
+                Value::Null
+            };
+            results.push(json!({"ok": r["ok"], "ret": r["ret"], "log": delta, "sidecar": side_vs_log}));
         }
         let norm = env.normalizer();
         let results: Vec<Value> = results
